@@ -182,6 +182,12 @@ def family(tier='quick'):
     g.variants = [('attr-on-AlphaOne', conv_attr)]
     g.converse = ['betatwo', 'gammathree']
     groups.append(g)
+    # shared zchar entry (which carries its own padding object), used before and after the attributed field, directly and through an alias
+    zm = 'MetaData M {\n    zchar[6] ZSym `s`,\n    ZSym ZAlias `a`,\n}\n\nroot packet Root {\n    ZSym BetaTwo,\n%s    ZSym AlphaOne,\n    ZAlias GammaThree,\n    repeat ZSym DeltaFour,\n}\n\npacket Other {\n    ZSym EpsilonFive,\n}\n'
+    g = Group('g:converse_meta_zchar', zm % '')
+    g.variants = [('leftpad-on-AlphaOne', zm % "    @leftPad('0')\n"), ('rightpad-on-AlphaOne', zm % "    @rightPad('*')\n")]
+    g.converse = ['betatwo', 'gammathree', 'deltafour', 'epsilonfive']
+    groups.append(g)
     conv2_base = 'root packet Root {\n    zchar[8] AlphaOne,\n    zchar[12] BetaTwo,\n}\n'
     conv2_attr = 'root packet Root {\n    @leftPad(\'0\')\n    zchar[8] AlphaOne,\n    zchar[12] BetaTwo,\n}\n'
     g = Group('g:converse_zchar', conv2_base)
